@@ -395,6 +395,30 @@ func main() {
 	}
 	fmt.Fprintf(&b, "/-- Manager.LoadJSONFileAndEnv: its calls in order -/\ndef fileAndEnvOrder : List String := %s\n\n", q(order))
 	fmt.Fprintf(&b, "/-- Manager.ApplyEnvVars: what it reaches -/\ndef managerEnvReach : List String := %s\n\n", q(reach))
+	sseqs, err := common.C15SectionSeqs(repo)
+	if err != nil {
+		fmt.Fprintln(os.Stderr, err)
+		os.Exit(1)
+	}
+	lev := func(l []string) string {
+		var o []string
+		for _, e := range l {
+			if strings.HasPrefix(e, "skip ") {
+				e = "skip " + strings.TrimPrefix(e, "skip ")
+			}
+			o = append(o, "."+e)
+		}
+		return "[" + strings.Join(o, ", ") + "]"
+	}
+	b.WriteString("/-- per section: LoadJSON, ApplyEnvVars and the apply function (helpers inlined) as event sequences -/\ndef sectionSeqs : List Seq.SecSeq := [\n")
+	for i, s := range sseqs {
+		sep := ","
+		if i == len(sseqs)-1 {
+			sep = ""
+		}
+		fmt.Fprintf(&b, "  { name := %q, load := %s, env := %s,\n    apply := %s }%s\n", s.Name, lev(s.Load), lev(s.Env), lev(s.Apply), sep)
+	}
+	b.WriteString("]\n\n")
 	b.WriteString("end CV.C15.Gen\n")
 	fmt.Print(b.String())
 }
